@@ -145,10 +145,10 @@ BUILDER = {
         "invariants": ["Inv_C04"],
         "exh": {"quick": [("C04_Docs", 2, 2, "C04_Range")],
                 "thorough": [("C04_Docs", 2, 2, "C04_Range"), ("C04_Docs3", 3, 3, "C04_Range3")]},
-        "mutations": [{"switch": "AbsLookup", "docs": "C04_Docs", "range": "C04_Range", "stages": (2, 2), "expect": ["Inv_C04"]},
+        "mutations": [{"switch": "AbsLookup", "docs": "C04_Docs3", "range": "C04_Range3", "stages": (2, 2), "expect": ["Inv_C04"]},
                       {"switch": "FnTruthyWhenEmpty", "docs": "C04_Docs", "range": "C04_Range", "stages": (2, 2), "expect": ["Inv_C04"]},
-                      {"mutation": "PruneEqualPriority", "docs": "C04_Docs", "range": "C04_Range", "stages": (2, 2), "expect": ["Inv_C04"]},
-                      {"mutation": "ClearRemovesKey", "docs": "C04_Docs", "range": "C04_Range", "stages": (2, 2), "expect": ["Inv_C04"]}],
+                      {"mutation": "PruneEqualPriority", "docs": "C04_Docs3", "range": "C04_Range3", "stages": (2, 2), "expect": ["Inv_C04"]},
+                      {"mutation": "ClearRemovesKey", "docs": "C04_Docs3", "range": "C04_Range3", "stages": (2, 2), "expect": ["Inv_C04"]}],
         "witness": "C04_Witness",
         "gen": _gen_c04, "random": {"quick": 1500, "thorough": 30000}, "max_stages": 4,
         "nontrivial": _c04_nontrivial,
